@@ -146,8 +146,8 @@ theorem C06_full_partial_leaf_component_leaves_nothing (env : Env) (i : Nat) (na
   exact ⟨rfl, rfl, rfl, rfl, rfl, rfl, rfl, rfl⟩
 
 /-- **Trees of components leave nothing behind — any depth, any width.**  `{% component name … %}{% endcomponent %}` where
-no component encloses the tag, over *any* library whose templates are built from text, `{{ }}`, if / for / with, elements
-and component tags with empty bodies (`GoodLib`: components nest through their templates, repeat in loops, may recurse)
+no component encloses the tag, over *any* library whose templates are built from text, `{{ }}`, if / for / with, elements,
+slots (not flagged `default`) and component tags whose bodies are empty or hold `{% fill "name" %}` tags (`GoodLib`: components nest through their templates, repeat in loops, may recurse)
 with data from the call.  `ComponentNode.render` → `_render_impl` → the `while` loop of `component_post_render` over
 however many queued renderers the tree unfolds: when the render returns, `component_context_cache`,
 `component_renderer_cache` and `child_component_attrs` hold exactly the entries they held before (no entry of this
@@ -156,15 +156,16 @@ fuel, context without slot references and world in which ids not yet generated a
 fault injection (a run in which a callback raised does not return).  Proved with an invariant over the whole queue
 (`Djc.Proofs.Tree.LInv`), by mutual induction over the seven functions of the pipeline. -/
 theorem C06_full_partial_component_trees_leave_nothing (env : Env) (hlib : Djc.Proofs.Tree.GoodLib env) (fuel : Nat)
-    (name : Str) (kwargs : List (Str × Expr)) (only dyn : Bool) (ctx : Ctx) (w w' : World) (toks : List Tok)
-    (hd : isDynName name = false) (hc : Djc.Proofs.Plain.ctxFree ctx = true) (hw : Djc.Proofs.Tree.WInv w)
+    (name : Str) (kwargs : List (Str × Expr)) (only dyn : Bool) (body : List Node) (ctx : Ctx) (w w' : World) (toks : List Tok)
+    (hd : isDynName name = false) (hb : Djc.Proofs.Tree.fbody body = true) (hc : Djc.Proofs.Plain.ctxFree ctx = true)
+    (hw : Djc.Proofs.Tree.WInv w)
     (hext : isExtracting ctx = false)
     (hpar : Djc.Proofs.Tree.parentOf (if only || env.isolated then isolatedCopy ctx else ctx) = none)
-    (h : (renderCompTag env fuel name kwargs only dyn [] ctx).run.run w = (.ok toks, w')) :
+    (h : (renderCompTag env fuel name kwargs only dyn body ctx).run.run w = (.ok toks, w')) :
     (∀ k, alGet k w'.ctxCache = alGet k w.ctxCache) ∧ (∀ k, alGet k w'.rendererCache = alGet k w.rendererCache) ∧
       (∀ k, alGet k w'.childAttrs = alGet k w.childAttrs) ∧ w'.provideCache = w.provideCache ∧
       w'.provideRefs = w.provideRefs ∧ w'.allRefIds = w.allRefIds ∧ w'.cap = w.cap := by
-  obtain ⟨hb, _⟩ := Djc.Proofs.Tree.tree_root_tag env hlib fuel name kwargs only dyn ctx w w' toks hd hc hw hext hpar h
+  obtain ⟨hb, _⟩ := Djc.Proofs.Tree.tree_root_tag env hlib fuel name kwargs only dyn body ctx w w' toks hd hb hc hw hext hpar h
   exact ⟨fun k => hb.cc k (by simp), fun k => hb.rc k (by simp), hb.ca, hb.prov.1, hb.prov.2.1, hb.prov.2.2.1, hb.prov.2.2.2⟩
 
 /-- the hypotheses are met, and the run returns: a three-level library (page > list > leaf in a loop, and a leaf beside
@@ -186,17 +187,18 @@ untouched, the provide registries and the fill-capture list are untouched, the i
 registered under an id not generated yet: the residue of the failure — the listed finding
 `error-leaves-registry-entries` — lies entirely under ids of the failed render. -/
 theorem C06_full_partial_failed_tree_render_disturbs_nothing_older (env : Env) (hlib : Djc.Proofs.Tree.GoodLib env) (fuel : Nat)
-    (name : Str) (kwargs : List (Str × Expr)) (only dyn : Bool) (ctx : Ctx) (w w' : World) (e : Err)
-    (hd : isDynName name = false) (hc : Djc.Proofs.Plain.ctxFree ctx = true) (hw : Djc.Proofs.Tree.WInv w)
-    (h : (renderCompTag env fuel name kwargs only dyn [] ctx).run.run w = (.error e, w')) :
+    (name : Str) (kwargs : List (Str × Expr)) (only dyn : Bool) (body : List Node) (ctx : Ctx) (w w' : World) (e : Err)
+    (hd : isDynName name = false) (hb : Djc.Proofs.Tree.fbody body = true) (hc : Djc.Proofs.Plain.ctxFree ctx = true)
+    (hw : Djc.Proofs.Tree.WInv w)
+    (h : (renderCompTag env fuel name kwargs only dyn body ctx).run.run w = (.error e, w')) :
     w.nextId ≤ w'.nextId ∧
       (∀ k, k < w.nextId → alGet k w'.ctxCache = alGet k w.ctxCache ∧ alGet k w'.rendererCache = alGet k w.rendererCache ∧
         alGet k w'.childAttrs = alGet k w.childAttrs) ∧
       (∀ k, w'.nextId ≤ k → alGet k w'.ctxCache = none ∧ alGet k w'.rendererCache = none ∧ alGet k w'.childAttrs = none) ∧
-      w'.provideCache = w.provideCache ∧ w'.provideRefs = w.provideRefs ∧ w'.allRefIds = w.allRefIds ∧ w'.cap = w.cap := by
-  have hf := Djc.Proofs.TreeFail.tree_failure_frame env hlib fuel name kwargs only dyn ctx w w' e hd hc hw h
+      w'.provideCache = w.provideCache ∧ w'.provideRefs = w.provideRefs ∧ w'.allRefIds = w.allRefIds := by
+  have hf := Djc.Proofs.TreeFail.tree_failure_frame env hlib fuel name kwargs only dyn body ctx w w' e hd hb hc hw h
   exact ⟨hf.next, fun k hk => ⟨hf.cc k hk, hf.rc k hk, hf.ca k hk⟩, fun k hk => ⟨hf.hcc k hk, hf.hrc k hk, hf.hca k hk⟩,
-    hf.prov.1, hf.prov.2.1, hf.prov.2.2.1, hf.prov.2.2.2⟩
+    hf.prov.1, hf.prov.2.1, hf.prov.2.2⟩
 
 /-- **Every later render behaves as if the failed one had never happened — as far as the registries go.**  After a render
 of the fragment failed (world `w1`), a later render of any tree of the fragment that returns, leaves the registries
@@ -204,18 +206,20 @@ exactly as the failure left them (nothing added, nothing of the residue touched)
 placeholders: the residue neither grows nor leaks into the later page.  (That its *output* is that of a fresh process up
 to the numbering of ids is decided per program by the correspondence, stream `faults`.) -/
 theorem C06_full_partial_render_after_failed_render (env : Env) (hlib : Djc.Proofs.Tree.GoodLib env) (fuel fuel2 : Nat)
-    (name name2 : Str) (kwargs kwargs2 : List (Str × Expr)) (only dyn only2 dyn2 : Bool) (ctx ctx2 : Ctx) (w w1 w2 : World)
-    (e : Err) (toks : List Tok)
-    (hd : isDynName name = false) (hc : Djc.Proofs.Plain.ctxFree ctx = true) (hw : Djc.Proofs.Tree.WInv w)
-    (h : (renderCompTag env fuel name kwargs only dyn [] ctx).run.run w = (.error e, w1))
-    (hd2 : isDynName name2 = false) (hc2 : Djc.Proofs.Plain.ctxFree ctx2 = true) (hext2 : isExtracting ctx2 = false)
+    (name name2 : Str) (kwargs kwargs2 : List (Str × Expr)) (only dyn only2 dyn2 : Bool) (body body2 : List Node) (ctx ctx2 : Ctx)
+    (w w1 w2 : World) (e : Err) (toks : List Tok)
+    (hd : isDynName name = false) (hb : Djc.Proofs.Tree.fbody body = true) (hc : Djc.Proofs.Plain.ctxFree ctx = true)
+    (hw : Djc.Proofs.Tree.WInv w)
+    (h : (renderCompTag env fuel name kwargs only dyn body ctx).run.run w = (.error e, w1))
+    (hd2 : isDynName name2 = false) (hb2 : Djc.Proofs.Tree.fbody body2 = true) (hc2 : Djc.Proofs.Plain.ctxFree ctx2 = true)
+    (hext2 : isExtracting ctx2 = false)
     (hpar2 : Djc.Proofs.Tree.parentOf (if only2 || env.isolated then isolatedCopy ctx2 else ctx2) = none)
-    (h2 : (renderCompTag env fuel2 name2 kwargs2 only2 dyn2 [] ctx2).run.run w1 = (.ok toks, w2)) :
+    (h2 : (renderCompTag env fuel2 name2 kwargs2 only2 dyn2 body2 ctx2).run.run w1 = (.ok toks, w2)) :
     (∀ k, alGet k w2.ctxCache = alGet k w1.ctxCache) ∧ (∀ k, alGet k w2.rendererCache = alGet k w1.rendererCache) ∧
       (∀ k, alGet k w2.childAttrs = alGet k w1.childAttrs) ∧ Djc.Proofs.Tree.holeIds toks = [] := by
-  have hf := Djc.Proofs.TreeFail.tree_failure_frame env hlib fuel name kwargs only dyn ctx w w1 e hd hc hw h
+  have hf := Djc.Proofs.TreeFail.tree_failure_frame env hlib fuel name kwargs only dyn body ctx w w1 e hd hb hc hw h
   have hw1 := hf.winv hw
-  obtain ⟨hb, hno⟩ := Djc.Proofs.Tree.tree_root_tag env hlib fuel2 name2 kwargs2 only2 dyn2 ctx2 w1 w2 toks hd2 hc2 hw1 hext2 hpar2 h2
+  obtain ⟨hb, hno⟩ := Djc.Proofs.Tree.tree_root_tag env hlib fuel2 name2 kwargs2 only2 dyn2 body2 ctx2 w1 w2 toks hd2 hb2 hc2 hw1 hext2 hpar2 h2
   exact ⟨fun k => hb.cc k (by simp), fun k => hb.rc k (by simp), hb.ca, hno⟩
 
 /-- instance (kernel-evaluated): the three-level page with a fault in the fourth callback raises the injected error and
